@@ -3,7 +3,7 @@
    the collection-level clauses (push/insert/reserve/... keep length and contents) are not
    modelled yet. *)
 From Coq Require Import ZArith List.
-From BS Require Import Word BumpSpec ChunkSpec Arena ArenaInv ArenaStats ArenaMisc.
+From BS Require Import Word BumpSpec ChunkSpec Arena ArenaInv ArenaStats ArenaMisc ArenaExt.
 Import ListNotations.
 Open Scope Z_scope.
 
@@ -40,6 +40,29 @@ Theorem C07_claimed_alloc_fails :
   step c s (OAlloc h ws size align zeroed) r = (tick s, mkOut (RErr ErrClaimed) [] false).
 Proof. exact claimed_alloc_fails. Qed.
 
+(* a failed allocation leaves the current chunk current and every chunk up to it untouched *)
+Theorem C07_failed_alloc_keeps_current_chunk :
+  forall c s size align r s1 e,
+  cfg_ok c -> ginv c s -> valid_layout size align -> resp_ok c s size align r ->
+  raw_alloc c s size align r = (s1, inr e) ->
+  cur s1 = cur s /\
+  match cur s with
+  | Cur i => forall k, (k <= i)%nat -> nth_error (chunks s1) k = nth_error (chunks s) k
+  | _ => chunks s1 = chunks s
+  end.
+Proof. exact failed_alloc_keeps_current. Qed.
+
+(* the chunk appended for a layout has room for it (no `unreachable_unchecked` is reached) *)
+Theorem C07_fresh_chunk_fits :
+  forall c prev size align m n addr g,
+  cfg_ok c -> valid_layout size align -> valid_min_align m ->
+  new_chunk_size c prev size align = Some n -> n <= g -> (ha c | addr) ->
+  chunk_alloc c m (make_chunk c n addr g) size align <> None /\
+  ((align | size) -> chunk_prepare c (make_chunk c n addr g) size align <> None).
+Proof. exact make_chunk_fits. Qed.
+
+Print Assumptions C07_failed_alloc_keeps_current_chunk.
+Print Assumptions C07_fresh_chunk_fits.
 Print Assumptions C07_refused_is_error.
 Print Assumptions C07_overflow_is_error.
 Print Assumptions C07_failed_alloc_keeps_live_and_memory.
